@@ -154,6 +154,13 @@ class LCDDocFilter(DocumentFilter):
       # cleanup styles
       style_filter.process_element(region)
 
+      # compute extent (tts:position is relative to the computed extent)
+      if region.get_style(StyleProperties.Extent) is None:
+        region.set_style(StyleProperties.Extent, initial_extent if initial_extent is not None \
+                         else StyleProperties.Extent.make_initial_value() )
+
+      StyleProcessors.Extent.compute(None, region)
+
       # compute origin
       if (region.get_style(StyleProperties.Origin)) is not None:
         StyleProcessors.Origin.compute(None, region)
@@ -165,14 +172,6 @@ class LCDDocFilter(DocumentFilter):
       if region.get_style(StyleProperties.Origin) is None:
         region.set_style(StyleProperties.Origin, initial_origin if initial_origin is not None \
                          else StyleProperties.Origin.make_initial_value())
-
-      # compute extent
-      if (region.get_style(StyleProperties.Extent)) is not None:
-        StyleProcessors.Extent.compute(None, region)
-
-      if region.get_style(StyleProperties.Extent) is None:
-        region.set_style(StyleProperties.Extent, initial_extent if initial_extent is not None \
-                         else StyleProperties.Extent.make_initial_value() )
 
       # computer writing_mode and display_align
 
